@@ -609,6 +609,19 @@ func classifyAssert(p *Program, fn *ssa.Function, x *ssa.TypeAssert) panicSite {
 			}
 		}
 	}
+	// the value found in a memo table (memo.go): every value stored there has the asserted type
+	if ex, ok := v.(*ssa.Extract); ok && ex.Index == 0 {
+		if call, ok := ex.Tuple.(*ssa.Call); ok {
+			if f := call.Call.StaticCallee(); f != nil && strings.HasPrefix(calleeName(f), "(*sync.Map).Load") && len(call.Call.Args) > 0 {
+				if g, ok := call.Call.Args[0].(*ssa.Global); ok {
+					if mi := p.memoTable(g); mi.ok && mi.valueType != nil && types.Identical(mi.valueType, x.AssertedType) {
+						s.ok, s.why = true, "value of a memo table into which only values of the asserted type are stored"
+						return s
+					}
+				}
+			}
+		}
+	}
 	// parameter of a callback that is handed, together with a prototype of the asserted type, to an in-module
 	// helper which calls it with the values it decoded into that type (push-style reply list; the wiring is
 	// decided by rules A6/B11)
@@ -1099,6 +1112,65 @@ func classifySlice(p *Program, fn *ssa.Function, x *ssa.Slice) panicSite {
 							return s
 						}
 					}
+				}
+			}
+		}
+	}
+	// x[lo:min(.., len(x))]: the upper bound cannot exceed the length; the lower bound is nil/0, or the loop
+	// variable kept below len(x) with the other operand of min being lo+c (so lo <= hi)
+	if x.High != nil {
+		if call, ok := x.High.(*ssa.Call); ok {
+			if b, ok := call.Call.Value.(*ssa.Builtin); ok && b.Name() == "min" {
+				hasLen := false
+				var others []ssa.Value
+				for _, a := range call.Call.Args {
+					if isLenOf(a, x.X) {
+						hasLen = true
+					} else {
+						others = append(others, a)
+					}
+				}
+				if hasLen {
+					lo0 := x.Low == nil
+					if c, ok := constIntOrNil(x.Low); ok && c == 0 {
+						lo0 = true
+					}
+					okLo := lo0
+					if !lo0 && loopBounded(x.Block(), x.Low, -1, x.X) {
+						okLo = true
+						for _, o := range others {
+							bo, ok := o.(*ssa.BinOp)
+							if !ok || bo.Op != token.ADD || bo.X != x.Low {
+								okLo = false
+								continue
+							}
+							if c, ok := constInt(bo.Y); !ok || c < 0 {
+								okLo = false
+							}
+						}
+					}
+					if lo0 {
+						for _, o := range others {
+							if c, ok := constInt(o); !ok || c < 0 {
+								okLo = false
+							}
+						}
+					}
+					if okLo {
+						s.ok, s.why = true, "upper bound is min(.., len(x)); lower bound is 0 or a loop variable below len(x)"
+						return s
+					}
+				}
+			}
+		}
+	}
+	// x[len(y):] where y is a prefix x[:k] of x: len(y) <= len(x)
+	if x.High == nil && x.Low != nil {
+		if call, ok := x.Low.(*ssa.Call); ok {
+			if b, ok := call.Call.Value.(*ssa.Builtin); ok && b.Name() == "len" && len(call.Call.Args) == 1 {
+				if pre, ok := call.Call.Args[0].(*ssa.Slice); ok && pre.X == x.X && pre.Low == nil {
+					s.ok, s.why = true, "lower bound is the length of a prefix of the same slice"
+					return s
 				}
 			}
 		}
@@ -1745,4 +1817,14 @@ func returnsTypeOfParam(fn *ssa.Function) int {
 		}
 	}
 	return k
+}
+
+// isLenOf: v is len(base).
+func isLenOf(v ssa.Value, base ssa.Value) bool {
+	call, ok := v.(*ssa.Call)
+	if !ok {
+		return false
+	}
+	b, ok := call.Call.Value.(*ssa.Builtin)
+	return ok && b.Name() == "len" && len(call.Call.Args) == 1 && call.Call.Args[0] == base
 }
